@@ -35,6 +35,9 @@ func c08Queries() []c08Query {
 		{model.Or(model.Eq("a", "zz"), ax, model.Eq("a", "w")), nil},
 		{model.And(model.Not(model.Eq("a", "zz")), model.Or(model.Eq("b", "q"), model.Eq("b", "y"), model.Eq("b", "zz"))), []string{"a"}},
 		{model.Not(model.Or(model.Eq("a", "k"), model.Eq("a", "w"), ax)), nil},
+		// redundant nodes below the root (double NOT, single-operand AND/OR, nested same operator): a "simplifying"
+		// evaluation must not write back into the caller's tree
+		{model.And(ax, model.Not(model.Not(model.Eq("b", "y"))), model.Or(ax), model.And(model.And(ax))), []string{"b"}},
 	}
 }
 
